@@ -129,10 +129,22 @@ def tlc(module, cfg, workers=1, env=None, heap="4g", gc="serial", timeout=3600, 
     tail = []
     err_mode = False
     try:
+        pending = None
         for line in p.stdout:
             line = line.rstrip("\n")
-            if line.startswith(print_prefix):
-                r.prints.append(line)
+            # PrintT output; TLC's pretty printer may wrap a long tuple over
+            # several lines: join them again
+            if pending is not None:
+                pending += " " + line.strip()
+                if line.rstrip().endswith(">>"):
+                    r.prints.append(pending)
+                    pending = None
+                continue
+            if line.startswith("<<"):
+                if line.rstrip().endswith(">>"):
+                    r.prints.append(line)
+                else:
+                    pending = line.strip()
                 continue
             tail.append(line)
             if len(tail) > 400:
@@ -178,7 +190,7 @@ def parse_print(line):
     <<"BAD", 3, "k", 7, "{\\"a\\":1}">>  ->  ["BAD", 3, "k", 7, '{"a":1}']"""
     s = line.strip()
     assert s.startswith("<<") and s.endswith(">>"), s
-    s = s[2:-2]
+    s = s[2:-2].strip()
     out = []
     i = 0
     n = len(s)
